@@ -20,7 +20,7 @@ import (
 )
 
 const c01sRule = "rapid state machine over one store.BlobCreator (mem and dir): Write of 0-200 byte chunks, Verify with the right or a wrong digest under sha256/sha384/sha512, ChangeAlgorithm, Size, Digest, in any order, " +
-	"sessions created plain, for an algorithm or for an expected digest (right or wrong), then Close or Cancel; oracle = Size/Digest agree with the bytes written, Verify succeeds exactly for the digest of those bytes, " +
+	"sessions created plain, for an algorithm or for an expected digest (right or wrong), then Close, Cancel, or Cancel followed by Close (a cancel overlapping the completing request); oracle = Size/Digest agree with the bytes written, Verify succeeds exactly for the digest of those bytes, " +
 	"a successful Close leaves exactly one new blob, named by the digest of all bytes written, reading back identical; a failed Close or a Cancel leaves none; " +
 	"non-trivial = a Verify or ChangeAlgorithm under another algorithm than the session's happened after the first Write and the session was closed; distinct = hash of the op trace"
 
@@ -138,8 +138,21 @@ func c01sProperty(t *rapid.T, st *Stats) {
 		},
 	})
 	final := cur.FromBytes(content)
-	closeIt := rapid.IntRange(0, 4).Draw(t, "close") > 0
-	if !closeIt {
+	ending := rapid.SampledFrom([]string{"close", "close", "close", "close", "cancel", "cancel-then-close"}).Draw(t, "ending")
+	closeIt := ending == "close"
+	if ending == "cancel-then-close" {
+		// a DELETE of the session that overlaps the PUT completing it: the handler of the PUT holds the object and goes
+		// on to Verify and Close after the other request has cancelled it. Whether the blob is stored is the outcome
+		// of a race and not asserted; what is stored must hash to its name (swept below).
+		err := bc.Cancel()
+		trace = append(trace, fmt.Sprintf("Cancel -> %v", err))
+		if rapid.Bool().Draw(t, "verifyAfterCancel") {
+			err = bc.Verify(final)
+			trace = append(trace, fmt.Sprintf("Verify(%s) after Cancel -> %v", short(string(final)), err))
+		}
+		err = bc.Close()
+		trace = append(trace, fmt.Sprintf("Close after Cancel -> %v", err))
+	} else if !closeIt {
 		err := bc.Cancel()
 		trace = append(trace, fmt.Sprintf("Cancel -> %v", err))
 	} else {
@@ -174,7 +187,7 @@ func c01sProperty(t *rapid.T, st *Stats) {
 			if a.FromBytes(got) != d {
 				fail("served-under-wrong-digest", "blob %s holds %d bytes that hash to %s", d, len(got), a.FromBytes(got))
 			}
-			if !closeIt {
+			if ending == "cancel" {
 				fail("cancelled-upload-stored", "after Cancel a blob %s exists", d)
 			}
 		}
